@@ -1408,3 +1408,22 @@ PROPS["C12"]["partial_gap"] += (' UPDATE 3 (sweep monitor, 38 theorems/examples 
 #      gap factor) is that every GAP address is polled within the sweep bound, monitored as C12's sweep_bound and sweep_order in
 #      the fdl domain.  Seeded R5-C06-1 restarts the sweep at every slave reply: stations above a slave are never polled again.
 PROPS["C06"]["also"] = list(PROPS["C06"].get("also", [])) + [("C12", "sweep_bound"), ("C12", "sweep_order")]
+# agent gt (coq/Model/ScanTruth.v, coq/Proofs/C18Truth.v): the decision of the ground-truth oracle converges_to_population is a Coq function
+# with a soundness theorem.  Texts only.
+PROPS["C18"]["level_text"] += (' GROUND-TRUTH ORACLE (converges_to_population): the case line says who is on the bus as a function of time; the decision - '
+    'per address 0..125 of the final population other than TS the LAST probe inside the stable window decides (never probed: failure; answered validly: '
+    'must be listed; anything else: no demand) and nothing else may be listed, bits 126/127 of the array included - is the Coq function '
+    'Model/ScanTruth.v: truth_ok / truth_bad, extracted. Soundness for both models (Proofs/C18Truth.v): C18_ground_truth_sound / _scanner - from ANY state '
+    'with the cursor in range, no uncollected event and bits 126/127 clear, any history of at least window + 252 calls whose window is explained by the '
+    'population (every probe of an address outside the population or of TS timed out; NOTHING assumed about members: valid, other or no answer): truth_ok '
+    'accepts, with the final station set read off the transcript as the driver does (last_bits); C18_ground_truth_sound_env / _env_scanner - the same with '
+    'the environment given as functions (h1 ++ h2, every reaction function of h2 silent outside the population). Exact condition found by the proof: bits '
+    '126/127 are never touched by the sweep, so they must be clear at the start (true of new()); C18_ground_truth_needs_hi_clear exhibits the run that '
+    'refutes the statement without it. C18_ground_truth_example: a model run with a valid member, a member answering with a bare SC and a member never '
+    'heard is accepted; the same transcript with the valid member unlisted, a silent address listed, or cut before the members are probed is rejected '
+    'with the three reasons.')
+PROPS["C18"]["level_note"] += (' The ground-truth RULE is no longer trusted OCaml: it is the extracted Coq function truth_ok with the soundness theorems '
+    'C18_ground_truth_sound / _scanner (a converges_to_population failure on a clean case can only come from the crate). What stays OCaml in '
+    'ocaml/run_scan.ml: ground_truth: parsing the case line (population after the last change, call of the last change), the clean / two-sweeps '
+    'bookkeeping and printing the offending addresses. That the harness environment really is silent outside the population (harness/src/scan.rs) is '
+    'the hypothesis `explained` of the theorems, not proved about the Rust harness.')
